@@ -544,8 +544,6 @@ class AV(object):
     def a(self, atom):
         if self.sign == S_ZERO and self.kind in (K_ARRAY, K_SCALAR, K_BOOL, K_LIST, K_TUPLE):
             return ZERO
-        if self.const is not _NOCONST and isinstance(self.const, float) and 0 < abs(self.const) <= 1e-12:
-            return ZERO  # documented exception: a literal of magnitude <= 1e-12 is a stand-in for zero
         return self.alg.get(atom, CONST)
 
     def atoms(self):
